@@ -27,7 +27,8 @@ RULE = ('generated programs (recursion, mutual recursion, nested calls, caught /
 ASSUMPTIONS = ['one generator resume counts as one invocation (CPython reports call/return per resume)',
                'a captured exception may be rendered as the (type, value, traceback) triple CPython hands to tracers']
 REQUIRE = {'openings': 1500, 'span_openings': 600, 'capture_openings': 300, 'recursive_openings': 60,
-           'openings_in_threads': 40, 'exception_exits': 60}
+           'openings_in_threads': 40, 'exception_exits': 60,
+           'withdrawn_mid_flight': 30}
 
 
 def plan(tier, seed):
@@ -108,10 +109,21 @@ def case_deferred(seed, out, spec, wd, idx):
     invs = []          # all invocations
     by_event_inv = {}  # ev.seq -> Inv active at that event
     opens = []         # dict(kind, key, tp, ev, inv)
+    withdrawn = []
     closes = []        # dict(kind, key, ev, tid, snapshot)
     lock = threading.Lock()
 
+    # a configuration update may land between any two trace events: with some probability the tracepoints are
+    # withdrawn (empty configuration installed, as a poll update would) while deferred work is open
+    withdraw_at = r.randrange(1, 60) if r.chance(0.25) else None
+    seen_open = [0]
+
     def pre(ev, frame, arg):
+        if withdraw_at is not None and opens and not withdrawn:
+            seen_open[0] += 1
+            if seen_open[0] == withdraw_at:
+                withdrawn.append(ev.seq)
+                rig.install([])
         st = stacks.setdefault(ev.tid, [])
         if ev.kind == 'call':
             inv = Inv(ev, len(st))
@@ -176,7 +188,10 @@ def case_deferred(seed, out, spec, wd, idx):
     logs = list(rig.logs)
     rig.cleanup()
     replay = replay_spec(spec, seed)
-    witness = {'shapes': prog.shapes, 'tracepoints': tps, 'agent_log': [short(x, 200) for x in logs[-2:]]}
+    witness = {'shapes': prog.shapes, 'tracepoints': tps, 'configuration_withdrawn_at_event': withdrawn[:1],
+               'agent_log': [short(x, 200) for x in logs[-2:]]}
+    if withdrawn:
+        out.count('withdrawn_mid_flight')
     if exc is not None:
         out.inconc('C15 harness body raised %r' % (exc,))
         return
@@ -240,7 +255,7 @@ def case_deferred(seed, out, spec, wd, idx):
     for mech, what in probs[:6]:
         out.violation(mech, what, witness, replay)
     out.count('openings', n_open)
-    out.case({'shapes': prog.shapes, 'calls': prog.calls, 'tps': tps}, nontrivial=n_open > 0,
+    out.case({'shapes': prog.shapes, 'calls': prog.calls, 'tps': tps, 'wd': withdraw_at}, nontrivial=n_open > 0,
              sample={'shapes': prog.shapes, 'tracepoints': tps, 'openings': n_open,
                      'completions': len(closes) + len(pushed), 'invocations_recorded': len(invs)})
 
